@@ -84,6 +84,7 @@ type Machine struct {
 	poolGets int
 	poolCap  int
 	concrete *rand.Rand
+	globalSlots map[*Val]string // C13 monitor: memory reachable from package-level variables after init
 	obs      []string
 	zeroReads int
 
@@ -285,6 +286,9 @@ func (m *Machine) global(x *ssa.Global) *Val {
 			}
 		}
 		m.globals[x] = p
+		if m.globalSlots != nil && !strings.HasSuffix(x.Name(), "init$guard") {
+			m.regGlobal(p, x.String()) // a global first touched after initialisation
+		}
 	}
 	return p
 }
@@ -568,6 +572,8 @@ func (m *Machine) run(fr *frame) Val {
 				m.checkReleased(p.P)
 				if g, ok := x.Addr.(*ssa.Global); ok {
 					m.globalStore(fr, g)
+				} else {
+					m.checkGlobalWrite(p.P)
 				}
 				assign(p.P, m.get(fr, x.Val))
 			case *ssa.TypeAssert:
@@ -594,6 +600,65 @@ func (m *Machine) globalStore(fr *frame, g *ssa.Global) {
 		return
 	}
 	m.violate("global-store", "concrete", "store to package-level variable "+g.String()+" in "+fr.fn.String())
+}
+
+// registerGlobals walks everything reachable from the package-level
+// variables (after init) so that later writes to it can be reported.
+func (m *Machine) registerGlobals() {
+	m.globalSlots = map[*Val]string{}
+	for g, p := range m.globals {
+		if strings.HasSuffix(g.Name(), "init$guard") {
+			continue
+		}
+		m.regGlobal(p, g.String())
+	}
+}
+
+func (m *Machine) regGlobal(root *Val, rootName string) {
+	var walk func(p *Val, name string, depth int)
+	walk = func(p *Val, name string, depth int) {
+		if p == nil || depth > 6 {
+			return
+		}
+		if _, seen := m.globalSlots[p]; seen {
+			return
+		}
+		m.globalSlots[p] = name
+		switch v := (*p).(type) {
+		case Struct:
+			for i := range v {
+				walk(&v[i], name, depth+1)
+			}
+		case Array:
+			for i := range v {
+				walk(&v[i], name, depth+1)
+			}
+		case Slice:
+			full := v.V[:cap(v.V)]
+			for i := range full {
+				walk(&full[i], name, depth+1)
+			}
+		case Ptr:
+			walk(v.P, name, depth+1)
+		}
+	}
+	walk(root, rootName, 0)
+}
+
+// checkGlobalWrite is the C13 monitor for writes into memory reachable from
+// package-level variables (outside package initialisation).
+func (m *Machine) checkGlobalWrite(p *Val) {
+	if m.globalSlots == nil {
+		return
+	}
+	if name, ok := m.globalSlots[p]; ok {
+		for _, f := range m.frames {
+			if f.fn.Name() == "init" || strings.HasPrefix(f.fn.Name(), "init#") {
+				return
+			}
+		}
+		m.violate("global-store", "concrete", "write to memory of package-level variable "+name)
+	}
 }
 
 func (m *Machine) checkReleased(p *Val) {
@@ -999,6 +1064,9 @@ func (m *Machine) builtin(b *ssa.Builtin, args []Val) Val {
 		if len(s.V)+len(cp) <= cap(s.V) {
 			// in place: Go writes into the shared backing array
 			dst := s.V[:len(s.V)+len(cp)]
+			if m.globalSlots != nil && len(cp) > 0 {
+				m.checkGlobalWrite(&dst[len(s.V)])
+			}
 			copy(dst[len(s.V):], cp)
 			return Slice{V: dst}
 		}
@@ -1029,6 +1097,9 @@ func (m *Machine) builtin(b *ssa.Builtin, args []Val) Val {
 				m.checkReleased(&src[i])
 			}
 			tmp[i] = copyVal(src[i])
+		}
+		if m.globalSlots != nil && n > 0 {
+			m.checkGlobalWrite(&d.V[0])
 		}
 		copy(d.V, tmp)
 		return goInt(n)
